@@ -92,6 +92,7 @@ def run(c, index, tier):
     ok, r = U.sut(c, "fit", est.fit, *args, **kw)
     if not ok:
         c.probe("fit_raised_on_generated_data:" + spec.name)
+        c.probe("fit_raised_on_generated_data:%s:%s:%s" % (spec.name, type(r).__name__, U.where_raised(r)))
         return
     # batch: probe rows (some training rows, some new) + far-away rows
     Xb = data.Xp
